@@ -61,6 +61,7 @@ def top_level_index(fn: ast.FunctionDef, node: ast.AST):
 
 
 def freshness_items(repo):
+    from pyvc import shape
     items = []
     sites = cross_reference_sites(repo)
     rl = repo.func(P + "ast.FortranAST.resolve_links")
@@ -94,7 +95,8 @@ def freshness_items(repo):
         if how is None and top is node:
             how = f"`{recv}.{field}` is assigned unconditionally at the top level of {fn.name}"
         # (c) reset for all objects by resolve_links
-        if how is None and f"var.{field} = None" in rl_src and recv == "self":
+        if how is None and recv == "self" and shape.has(shape.of(repo, P + "ast.FortranAST.resolve_links"),
+                                                        f"for var in self.variable_list:\n    var.{field} = None"):
             how = f"FortranAST.resolve_links resets .{field} of every variable before resolving"
         # (e) every path of the enclosing branch structure assigns the field: if <cond>: ... f = v ... elif/else: ... f = None
         if how is None:
@@ -116,42 +118,46 @@ def freshness_items(repo):
                       "structural(freshness)", 0.0, mode="E",
                       detail=f"{len(seen)} cross-reference assignment sites: {sorted({f'{r}.{f}' for _, r, f in seen})}"))
     # resolvers run for every object on every save
+    from pyvc import shape
     fs = repo.func(f"{LS}.serve_onSave")
-    src = ast.unparse(fs.node)
+    sf = shape.of(repo, f"{LS}.serve_onSave")
+    bump = "self.link_version = (self.link_version + 1) % 1000"
+    relink = "for _, file_obj in self.workspace.items():\n    file_obj.ast.resolve_links(self.obj_tree, self.link_version)"
+    reinc = "for _, file_obj in self.workspace.items():\n    file_obj.ast.resolve_includes(self.workspace, path=filepath)"
     ok = False
-    for n in ast.walk(fs.node):
+    for n in ast.walk(sf):
         if isinstance(n, ast.If) and ast.unparse(n.test) == "did_change":
-            body = [ast.unparse(s) for s in n.body]
-            bump = "self.link_version = (self.link_version + 1) % 1000"
-            relink = "for _, file_obj in self.workspace.items():\n    file_obj.ast.resolve_links(self.obj_tree, self.link_version)"
-            reinc = "for _, file_obj in self.workspace.items():\n    file_obj.ast.resolve_includes(self.workspace, path=filepath)"
-            ok = bump in body and relink in body and reinc in body and body.index(bump) < body.index(relink)
+            blk = ast.Module(body=n.body, type_ignores=[])
+            lv = shape.Free({"file_obj", "_"})  # the loop variables may have any name
+            ok = (shape.has(blk, bump) and shape.has(blk, relink, lv) and shape.has(blk, reinc, lv) and shape.before(blk, bump, relink, lv))
     items.append(Item("C10/LangServer.serve_onSave/ensures.re_resolves_all", "proved" if ok else "refuted", "structural(freshness)",
-                      0.0, where=fs.where(), mode="E", func=fs.qualname,
+                      0.0, where=fs.where(), mode="E", func=fs.qualname, shape=True,
                       detail="a changed file bumps link_version and re-resolves includes and links of every file of the workspace",
                       witness=None if ok else {"reason": "the save path no longer re-resolves every file"}))
-    ok = ("self.workspace.pop(filepath, None)" in src and "self._remove_file_globals(ast_old, filepath)" in src
-          and "other_obj.ast.resolve_links(self.obj_tree, self.link_version)" in src)
+    ok = (shape.has(sf, "self.workspace.pop(filepath, None)") and shape.has(sf, "self._remove_file_globals(ast_old, filepath)")
+          and shape.has(sf, "for _, other_obj in self.workspace.items():\n    other_obj.ast.resolve_links(self.obj_tree, self.link_version)",
+                        shape.Free({"other_obj", "_"})))
     items.append(Item("C10/LangServer.serve_onSave/ensures.delete_forgets", "proved" if ok else "refuted", "structural(freshness)",
-                      0.0, where=fs.where(), mode="E", func=fs.qualname,
+                      0.0, where=fs.where(), mode="E", func=fs.qualname, shape=True,
                       detail="closing a deleted file removes its top-level objects and the file itself and re-resolves the others",
                       witness=None if ok else {"reason": "a deleted file's objects or links survive"}))
     fu = repo.func(f"{LS}.update_workspace_file")
-    src = ast.unparse(fu.node)
-    ok = ("if ast_old is not None:\n        self._remove_file_globals(ast_old, filepath)" in src
-          and "for key, obj in ast_new.global_dict.items():\n        self.obj_tree[key] = [obj, filepath]" in src
-          and src.index("self._remove_file_globals(ast_old, filepath)") < src.index("self.obj_tree[key] = [obj, filepath]"))
+    uf = shape.of(repo, f"{LS}.update_workspace_file")
+    rm = "if ast_old is not None:\n    self._remove_file_globals(ast_old, filepath)"
+    add = "for key, obj in ast_new.global_dict.items():\n    self.obj_tree[key] = [obj, filepath]"
+    ok = (shape.has(uf, rm) and shape.has(uf, add)
+          and shape.before(uf, "self._remove_file_globals(ast_old, filepath)", "self.obj_tree[key] = [obj, filepath]"))
     items.append(Item("C10/LangServer.update_workspace_file/ensures.obj_tree_view", "proved" if ok else "refuted",
-                      "structural(freshness)", 0.0, where=fu.where(), mode="E", func=fu.qualname,
+                      "structural(freshness)", 0.0, where=fu.where(), mode="E", func=fu.qualname, shape=True,
                       detail="the previous version's top-level keys are removed before the new version's are added",
                       witness=None if ok else {"reason": "keys of the previous version of the file are not pruned"}))
     fr = repo.func(f"{LS}._remove_file_globals")
-    rsrc = ast.unparse(fr.node)
-    ok = ("for key in ast_old.global_dict:" in rsrc and "if entry is None or entry[1] != filepath:\n            continue" in rsrc
-          and "self.obj_tree.pop(key)" in rsrc and "self.obj_tree[key] = [other_obj, other_path]" in rsrc
-          and "if other_path == filepath or other_file.ast is None:\n                continue" in rsrc)
+    rf_ = shape.of(repo, f"{LS}._remove_file_globals")
+    ok = (shape.has(rf_, "if entry is None or entry[1] != filepath:\n    continue")
+          and shape.has(rf_, "self.obj_tree.pop(key)") and shape.has(rf_, "self.obj_tree[key] = [other_obj, other_path]")
+          and shape.has(rf_, "if other_path == filepath or other_file.ast is None:\n    continue"))
     items.append(Item("C10/LangServer._remove_file_globals/ensures.owned_keys_only", "proved" if ok else "refuted",
-                      "structural(freshness)", 0.0, where=fr.where(), mode="E", func=fr.qualname,
+                      "structural(freshness)", 0.0, where=fr.where(), mode="E", func=fr.qualname, shape=True,
                       detail="only entries owned by the file are removed; a name another file also declares falls back to that file",
                       witness=None if ok else {"reason": "entries of other files are dropped, or a duplicate declaration is not restored"}))
     # what Submodule.resolve_link copies onto the implementations of a previous call is taken back before the next lookup
@@ -203,9 +209,9 @@ def freshness_items(repo):
                       witness=None if ok else {"undo_loop_statement": undo_at, "ancestor_guard_statement": guard_at, "fields": missing,
                                                "reason": "what an earlier prototype copied onto the implementation survives its "
                                                          "change or removal"}))
-    rl_ok = "for var in self.variable_list:\n        var.type_obj = None" in rl_src
+    rl_ok = shape.has(shape.of(repo, P + "ast.FortranAST.resolve_links"), "for var in self.variable_list:\n    var.type_obj = None")
     items.append(Item("C10/ast.FortranAST.resolve_links/ensures.type_cache_reset", "proved" if rl_ok else "refuted",
-                      "structural(freshness)", 0.0, where=rl.where(), mode="E", func=rl.qualname,
+                      "structural(freshness)", 0.0, where=rl.where(), mode="E", func=rl.qualname, shape=True,
                       detail="the lazily filled type_obj cache of every variable is cleared whenever links are re-resolved",
                       witness=None if rl_ok else {"field": "Variable.type_obj", "reason": "fill-if-None cache with no reset"}))
     return items
